@@ -55,9 +55,12 @@ struct Flags {
     skip_html_declaration: bool,
     skip_html_pi: bool,
     skip_html_comment: bool,
-    // A scan for a closing `$` / `$$` / `` `$ `` ran to the end of the input
-    // without finding one: there is none ahead of any later opener either.
-    no_dollar_closer: [bool; MAX_MATH_DOLLARS + 1],
+    // A scan for a closing `$` / `$$` failed at this position (the end of the
+    // input, or a `$` that cannot close): every `$` before it was skipped for a
+    // reason that does not depend on the opener, so a scan that starts before
+    // it fails at the same place.
+    no_dollar_closer_before: [usize; MAX_MATH_DOLLARS + 1],
+    // A scan for a closing `` `$ `` ran to the end of the input.
     no_code_dollar_closer: bool,
 }
 
@@ -772,7 +775,7 @@ impl<'a, 'r, 'o, 'd, 'i, 'c> Subject<'a, 'r, 'o, 'd, 'i, 'c> {
             return None;
         }
 
-        if self.flags.no_dollar_closer[opendollarlength] {
+        if self.pos < self.flags.no_dollar_closer_before[opendollarlength] {
             return None;
         }
 
@@ -786,7 +789,7 @@ impl<'a, 'r, 'o, 'd, 'i, 'c> Subject<'a, 'r, 'o, 'd, 'i, 'c> {
             crate::verif::bump(4);
 
             if self.pos >= self.input.len() {
-                self.flags.no_dollar_closer[opendollarlength] = true;
+                self.flags.no_dollar_closer_before[opendollarlength] = self.pos;
                 return None;
             }
 
@@ -794,6 +797,7 @@ impl<'a, 'r, 'o, 'd, 'i, 'c> Subject<'a, 'r, 'o, 'd, 'i, 'c> {
 
             // space not allowed before ending $
             if opendollarlength == 1 && isspace(c) {
+                self.flags.no_dollar_closer_before[opendollarlength] = self.pos;
                 return None;
             }
 
@@ -807,6 +811,7 @@ impl<'a, 'r, 'o, 'd, 'i, 'c> Subject<'a, 'r, 'o, 'd, 'i, 'c> {
 
             // ending $ can't be followed by a digit
             if opendollarlength == 1 && self.peek_char().map_or(false, |&c| isdigit(c)) {
+                self.flags.no_dollar_closer_before[opendollarlength] = self.pos - numdollars;
                 return None;
             }
 
